@@ -72,13 +72,38 @@ PH = re.compile(r"\{(\d*)(?::([^}]*))?\}")
 
 
 def placeholders(fmt):
-    """[(arg index, spec)] of an fmt format string"""
+    """[(arg index, spec)] of an fmt format string; a nested field in a spec (`{:.{}}`, dynamic width / precision) takes the
+    next automatic argument index and appears in the spec as `{<index>}`"""
     out = []
     auto = 0
-    for m in PH.finditer(fmt.replace("{{", "").replace("}}", "")):
-        idx = int(m.group(1)) if m.group(1) else auto
-        auto = idx + 1 if not m.group(1) else auto
-        out.append((idx, m.group(2) or ""))
+    i, n = 0, len(fmt)
+    while i < n:
+        if fmt.startswith("{{", i) or fmt.startswith("}}", i):
+            i += 2
+            continue
+        if fmt[i] != "{":
+            i += 1
+            continue
+        depth, j = 1, i + 1
+        while j < n and depth:
+            depth += {"{": 1, "}": -1}.get(fmt[j], 0)
+            j += 1
+        body = fmt[i + 1:j - 1]
+        i = j
+        ident, _, spec = body.partition(":")
+        if ident.strip().isdigit():
+            idx = int(ident)
+        else:
+            idx = auto
+            auto += 1
+        def nested(m):
+            nonlocal auto
+            if m.group(1):
+                return "{%s}" % m.group(1)
+            auto += 1
+            return "{%d}" % (auto - 1)
+        spec = re.sub(r"\{(\d*)\}", nested, spec)
+        out.append((idx, spec))
     return out
 
 
@@ -385,6 +410,8 @@ def run(rep, ctx):
             ty = (a.get("ct") or a.get("t") or "").replace("const ", "")
             key = "%s|%s|%d|%s" % (f.full.split("(")[0].split("::")[-1][:40], short_loc(c.get("l")).split(":")[-1], idx, ty[:20])
             if ty in ("double", "float", "long double"):
+                # a dynamic precision `{:.{}}` counts with the constant value of its argument
+                spec = re.sub(r"\{(\d+)\}", lambda m_: str(cv(args[int(m_.group(1))])) if int(m_.group(1)) < len(args) and cv(args[int(m_.group(1))]) is not None else "?", spec)
                 m = re.fullmatch(r"\.(\d+)[gGeE]?", spec)
                 f1.check(bool(m) and int(m.group(1)) >= 16, key, short_loc(c.get("l")), "double `%s` printed with '{:%s}'" % (render(a)[:40], spec),
                          "double `%s` is printed with '{%s}': fewer than 16 significant digits" % (render(a)[:40], (":" + spec) if spec else ""))
